@@ -38,3 +38,10 @@ CHECKS = {
                      'user callbacks are arbitrary GoM computations (may log and panic)'],
     ),
 }
+
+HOOK_COMMITS = []
+
+NOT_APPLICABLE = {
+    'C13': "byte-level reproducibility of three generator executables over a file tree: no executable Lean model short of a model of "
+           "gombok/text-template themselves expresses it; a `decide` over two byte strings would be a restated test, not a theorem",
+}
